@@ -35,7 +35,8 @@ EVIDENCE = {
 }
 
 FILE = '/data/bumble/keys.json'
-NAMESPACES = ['00:11:22:33:44:55', 'F0:F0:F0:F0:F0:F0', 'nsC']
+# (the third differs from the second by letter case only: two namespaces all the same)
+NAMESPACES = ['00:11:22:33:44:55', 'F0:F0:F0:F0:F0:F0', 'f0:f0:f0:f0:f0:f0']
 PEERS = ['AA:BB:CC:00:00:01', 'AA:BB:CC:00:00:02', 'C1:22:33:44:55:66']
 KEYNAMES = ['ltk', 'ltk_central', 'ltk_peripheral', 'irk', 'csrk', 'link_key']
 
@@ -86,7 +87,9 @@ def gen_store(rng, tier, seed):
     # every file-system step of every mutating op is a fault point and costs one re-run of the history: a small write buffer makes
     # many steps per save, so long histories only go with large buffers (keeps one case well under the per-run wall limit)
     ops = ops[:{16: 7, 64: 12}.get(buffer, len(ops))]
-    return {'buffer': buffer, 'ops': ops, 'fault': rng.choice(['crash', 'crash', 'eio', 'enospc']),
+    # ('eio+crash' / 'enospc+crash': the I/O error, and a crash a few steps later if the store carries on after the error)
+    return {'buffer': buffer, 'ops': ops, 'fault': rng.choice(['crash', 'crash', 'eio', 'enospc', 'eio+crash', 'enospc+crash']),
+            'chain': [rng.choice([1, 1, 2, 3, 4]), rng.choice(['before', 'after'])],
             'precreate_dir': rng.random() < 0.5, 'long_lived': rng.random() < 0.5}
 
 
@@ -288,11 +291,16 @@ class Runner:
                 return
             if kind in ('update', 'delete', 'delete_all'):
                 self.step_ranges.append((i, first, self.fs.step))
+            if not crashed:
+                self.fs.plan2 = None  # (a chained crash is meant for the operation that met the I/O error, not for a later one)
             if crashed:
                 faulty = True
                 fired = self.fs.fired
                 self.fault_info = (kind, fired)
                 self.fs.plan = None
+                self.fs.plan2 = None
+                if self.fs.fired2 is not None:
+                    fired = (fired[0], fired[1], fired[2].split(' ')[0] + '-error-then-crash-at-' + self.fs.fired2[2])
                 # the file is the complete pre-state or the complete post-state of ALL namespaces
                 post_model = Model()
                 post_model.db = copy.deepcopy(pre)
@@ -427,14 +435,17 @@ def run_store(case):
         base = one(None)
         multi_ns = len([ns for ns in base.model.db['overlay'] if base.model.db['overlay'][ns]]) >= 2
         if not base.violations:
-            kinds = ['crash'] if case['fault'] == 'crash' else [case['fault']]
+            fkind, _, chained = case['fault'].partition('+')
+            chain = tuple(case.get('chain') or (1, 'before')) if chained else None
             for (i, first, last) in base.step_ranges:
                 for step in range(first, last + 1):
-                    for when in (('before', 'after') if case['fault'] == 'crash' else ('before',)):
-                        r = one((step, when, case['fault']))
+                    for when in (('before', 'after') if fkind == 'crash' else ('before',)):
+                        r = one((step, when, fkind, chain))
                         if r.fs.fired is not None:
                             name = r.fs.fired[2].split(' ')[0]
-                            faults[f'{case["fault"]}:{when}:{name}'] = faults.get(f'{case["fault"]}:{when}:{name}', 0) + 1
+                            faults[f'{fkind}:{when}:{name}'] = faults.get(f'{fkind}:{when}:{name}', 0) + 1
+                            if r.fs.fired2 is not None:
+                                faults['crash-after-io-error'] = faults.get('crash-after-io-error', 0) + 1
                             if multi_ns:
                                 probes['fault_with_two_namespaces_in_file'] = probes.get('fault_with_two_namespaces_in_file', 0) + 1
         import hashlib
